@@ -81,7 +81,7 @@ def c04(run):
     fd = build.build_flex()
     rng = random.Random(run.seed)
     q = run.tier == "quick"
-    srcs = [s for s in fam(run, profiles=("nul", "high", "seven", "mix"), core=4 if q else 12, rnd=60)]
+    srcs = [s for s in fam(run, profiles=("nul", "high", "seven", "mix"), core=4 if q else 12, rnd=30)]
     srcs = [s for s in srcs if s.get("profile") or "nul" in s.get("name", "")]
     cfgs = tbl_cfgs(["", "-C", "-Cf", "-CF", "-Cfe", "-CFe", "-Cfa"], inter=(None, False)) + tbl_cfgs(["", "-Cm"], inter=(None, False), reject=(True,))
     cases = units.product_unit(run, fd, srcs, cfgs, tag="product", san=True)
